@@ -8,7 +8,9 @@ Mirrors, as it is written, `flowpaths/abstractwalkmodeldigraph.py`:
 
 * `AbstractWalkModelDiGraph.__init__` — the per-edge upper bounds (`edge_upper_bounds`):
   `max_edge_repetition` for every edge, or the entries of `max_edge_repetition_dict`, and then
-  every edge that is not inside an SCC of the *augmented* graph is capped to 1 (`capBounds`).
+  every edge that is not inside an SCC of the *augmented* graph is capped to 1 and the bound of
+  every SCC edge is floored (`math.floor`, since fix fcfd0b0: the bounds are those of integer
+  columns) (`capBounds`).
 * `_encode_walks` — variables `edge`, `distance`, `selected_edge`; rows 17a, 17b, 21, 22a, 22b,
   18a, 19c (`encodeWalks`).
 * `_encode_subset_constraints` — variables `r`, `used_edge`; rows min1 (two per edge and layer),
@@ -66,10 +68,13 @@ def edgeMaxReachable (g : Graph) (w : Edge → Rat) : List (Edge × Rat) :=
     (e, max (w e) (max maxDesc maxAnc))
 
 /-- the loop at the end of the bounds part of `AbstractWalkModelDiGraph.__init__`:
-`edge_upper_bounds[e] = 1` for every edge that is not an SCC edge -/
+`edge_upper_bounds[e] = 1` for every edge that is not an SCC edge, and
+`edge_upper_bounds[e] = math.floor(edge_upper_bounds[e])` for every SCC edge (floored since fix
+fcfd0b0: before it the raw value — e.g. a float flow value such as `0.5` — became the fractional
+upper bound of an integer column). Every bound is therefore an integer (`capBounds_int`). -/
 def capBounds (g : Graph) (raw : Edge → Rat) : List (Edge × Rat) :=
   let t := reachTable g
-  g.edges.map fun e => (e, if sameScc t e.1 e.2 then raw e else 1)
+  g.edges.map fun e => (e, if sameScc t e.1 e.2 then (((raw e).floor : Int) : Rat) else 1)
 
 /-! ## `add_integer_continuous_product_constraint` with a rational upper bound -/
 
